@@ -184,10 +184,11 @@ def make_line(rng, form, section, hour=None):
     if ":" in d:
         p[3] = p[3] if p[3].endswith(" ") else p[3] + " "
         p[4] = p[4] if p[4].startswith(" ") else " " + p[4]
-    if form == "ptime" and ":" not in d:
-        # a description that starts like minutes directly after the colon is inherently ambiguous
-        if p[4] == "" and re.match(r"[0-5][0-9]|mm|MM", d):
-            p[4] = " "
+    if form == "ptime" and ":" not in d and rng.random() < 0.25:
+        # clock time + a description that starts like minutes, with or without padding after the colon
+        d = rng.choice(["45 min logging", "30 samples", "05", "mm of mud", "59"])
+        if rng.random() < 0.6:
+            p[4] = ""
     line = lastext.hline((m, u, v, d), p)
     head = line[:line.rfind(":")] if ":" not in d else line[:line.find(" : ") + 1]
     if in_curves and ".." in head:
